@@ -399,6 +399,9 @@ class Run:
         self.xcheck = {"terms_compared_with_vm_compute": n, "differences": len(bad)}
         if bad:
             self.broken_tie("extraction cross-check (OCaml server vs vm_compute)", {"differences": [list(b) for b in bad[:5]]})
+        # the reproducers of the defects of this property that were repaired (they run first)
+        import regress
+        regress.run_regressions(self, self.pid)
         return ps
 
     # -- finish
